@@ -113,7 +113,7 @@ class Ctx:
         """Count one evaluated case; sig != None marks it non-trivial with that signature."""
         self.evaluations += 1
         if sig is not None:
-            self.nontrivial.add(str(sig))
+            self.nontrivial.add(hashlib.blake2b(str(sig).encode(), digest_size=8).hexdigest())  # 64-bit digest: millions of signatures stay small
         if sample is not None and len(self.samples) < MAX_SAMPLES:
             self.samples.append(jsonable(sample))
 
